@@ -132,3 +132,13 @@ def register(claim, na):
           "that disappeared must equal the expected deletion set (nothing without --perform, never a job whose process is alive).",
           "Closed alphabets (2 tags x 3 values, 4 states, 9 commands). Mixed and/or chains without parentheses are not enumerated (no documented "
           "precedence). `jobs kill` is outside the statement.", "DESIGN.md 3/C19")
+
+    claim("C15", "S+W", "exploration",
+          "exhaustive enumeration of type expressions x candidate values against a reference type checker, and of task graphs with one required value removed submitted in the virtual scheduler",
+          "(a) All type expressions of depth <=3 (thorough 4) over seven scalar kinds with List/Dict, required and Optional, each as parameter of a "
+          "dynamically defined class; candidates: the conforming value, each documented coercion at each leaf, every one-constructor-off value at "
+          "every depth; by attribute assignment and by keyword: an accepted value must be deeply of the declared type and read back equal, a rejected "
+          "one must leave the parameter unchanged. (b) Every task description within (N,k) with one required value removed at one node is "
+          "submitted in a NORMAL-mode experiment running on the virtual scheduler: submit must raise with registry and unfinishedJobs unchanged "
+          "and nothing launched.",
+          "Closed value alphabet (one conforming value per shape); bool accepts everything by design; Union not covered.", "DESIGN.md 3/C15")
